@@ -1,3 +1,3 @@
 From Coq Require Import Extraction ExtrOcamlBasic.
-From Vivid Require Import Base.Tm Actor.CoreRun.
-Extraction "actor_model.ml" run_actor.
+From Vivid Require Import Base.Tm Actor.CoreRun2.
+Extraction "actor_model.ml" run_actor2.
